@@ -113,7 +113,6 @@ var templates = []template{
 	{"import-lib", "import \"lib\" as x\nx.g($1) + x.a", 1},
 	{"import-bad", "import \"bad\" as x", 0},
 	{"import-as-index", "l := [1, [2]]\nimport \"lib\" as l[$1]\nl", 1},
-	{"import-as-index2", "l := [1, [2]]\nimport \"lib\" as l[1][$1]\nl", 1},
 	{"import-as-member", "l := $1\nimport \"lib\" as l.a.b\nl", 1},
 	{"import-fail", "import \"fail\" as x", 0},
 	{"mutex", "mutex m {\n $1 + $2\n}", 2},
@@ -442,6 +441,12 @@ func (h *harness) sinkAttrCase(idx int, sc sinkCase, workers int) {
 			h.fireBoth(stream, idx, src, e, ev, false)
 		}
 	}
+	// degenerate events through the Go API: no kind, empty segments, kinds that
+	// are too short / too long, no state map at all
+	for ki, kind := range [][]string{nil, {}, {""}, {"c06"}, {"c06", "x", "y"}, {"c06", ""}, {"*", "*"}} {
+		h.fireBoth(stream, idx, src, e, engine.NewEvent(fmt.Sprintf("e3-%d", ki), kind, nil), false)
+	}
+	h.fireBoth(stream, idx, src, e, engine.NewEvent("", []string{"c06", "x"}, nil), false)
 }
 
 // (d) statematch value x event state value, three ways of sending the event.
@@ -550,6 +555,7 @@ func (h *harness) sendViaBuiltin(stream string, idx int, text string, e *env, ca
 				map[string]interface{}{"workers": workers, "panic": trunc(pfMsg, 1500)})
 			return
 		}
+		e.quiesce()
 	}
 	o := e.eval(call)
 	h.account("send", o)
@@ -564,10 +570,7 @@ func (h *harness) sendViaBuiltin(stream string, idx int, text string, e *env, ca
 		c.Nontrivial(core.Hash64("sent|" + text))
 	}
 	if !e.proc.Stopped() {
-		// quiescence before sampling the worker count
-		nudgeBegin(e.proc.ThreadPool())
-		e.proc.ThreadPool().WaitAll()
-		nudgeEnd()
+		e.quiesce() // before sampling the worker count
 		if n := e.proc.ThreadPool().WorkerCount(); n != workers {
 			h.violation("worker-lost", fmt.Sprintf("the pool has %d workers after the event, %d were configured", n, workers), stream, idx, text, nil)
 			return
@@ -756,7 +759,7 @@ func (g *rgen) expr(d int) string {
 
 func (h *harness) streamRandom() {
 	c := h.c
-	n := c.Pick(16000, 600000)
+	n := c.Pick(16000, 400000)
 	const stream = "rand-expr"
 	for i := 0; i < n; i++ {
 		if !c.Take(stream, i) {
